@@ -159,6 +159,20 @@ Example C07_ex_rows :
   d_batch (firstn (5 + length (e_row r1)) (e_batch [r1; r2])) = None.
 Proof. vm_compute. repeat split. Qed.
 
+(* ---- generated constants (Gen_Consts.v, rewritten from the Go constants on every run): what the model needs of them ---- *)
+Example C07_generated_constants :
+  NoDup [g_int_const; g_int_s8; g_int_zstd; g_int_raw] /\ NoDup [g_time_const; g_time_s8; g_time_snappy; g_time_raw] /\
+  NoDup [g_f_none; g_f_snappy; g_f_gorilla; g_f_same; g_f_rle; g_f_mlf] /\ NoDup [g_str_raw; g_str_snappy; g_str_zstd; g_str_lz4] /\
+  forallb (fun t => (0 <=? t) && (t <? 16)) [g_int_const; g_int_s8; g_int_zstd; g_int_raw; g_time_const; g_time_s8; g_time_snappy; g_time_raw;
+                                             g_f_none; g_f_snappy; g_f_gorilla; g_f_same; g_f_rle; g_f_mlf; g_str_raw; g_str_snappy; g_str_zstd; g_str_lz4;
+                                             g_bool_bitpack] = true /\
+  g_s8_max = M60 - 1 /\ length g_s8_table = 16%nat /\ g_wal_head = 1 + 4 /\ g_rle_block_limit < 32768 /\
+  g_wal_unknown < g_wal_line < g_wal_end /\ g_wal_unknown < g_wal_arrow < g_wal_end /\ g_str_v2 < M32.
+Proof.
+  repeat split; try (vm_compute; congruence); try reflexivity;
+    repeat (constructor; [vm_compute; intuition congruence|]); constructor.
+Qed.
+
 (* ---- non-vacuity: the hypotheses are satisfiable (identity compressors) and every mode has an applicable input ---- *)
 Definition idc (x : list Z) := x.
 Definition idd (x : list Z) : option (list Z) := Some x.
